@@ -496,7 +496,78 @@ func (f *Frame) pureBinop(x *ssa.BinOp) {
 // indexFuncStateful models the idiom of service.unpack: a predicate counting occurrences of an ASCII byte
 // and returning true at the k-th. It is recognised structurally; anything else is unsupported.
 func indexFuncStateful(f *Frame, st *state, b Val, fn Val, ins ssa.Instruction, resT types.Type) *Val {
-	return f.abstractCall(st, nil, ins, resT, "bytes.IndexFunc with stateful predicate")
+	u := f.u
+	c, k, cell, ok := matchCountingPredicate(fn.Fn)
+	if !ok || k != 2 || c >= 0x80 || len(fn.Binds) != 1 {
+		return f.abstractCall(st, nil, ins, resT, "bytes.IndexFunc with stateful predicate")
+	}
+	_ = cell
+	// bytes.IndexFunc(s, func(r) { if r == C { cnt++ }; return cnt == 2 }) with cnt == 0 before the call:
+	// the byte index of the second occurrence of the ASCII byte C, or -1 (a byte < 0x80 is never part of a multi-byte rune)
+	cnt := fn.Binds[0]
+	env := &Env{u: u, st: st}
+	before := env.loadAt(cnt.S[0], types.Typ[types.Int], "elem")
+	need(f, st, ins, "IndexFunc:counter-starts-at-zero", eq(before.S[0], "0"))
+	arr := u.arr(st.mem, byteSite, SBV(8))
+	cb := bvLitU(uint64(c), 8)
+	at := func(i string) string { return eq(sel(arr, add(b.S[0], i)), cb) }
+	r := u.ctx.freshConst("idx2", SInt)
+	j := u.ctx.freshConst("idx1", SInt)
+	found := and(le("0", j), lt(j, r), lt(r, b.S[1]), at(j), at(r),
+		fmt.Sprintf("(forall ((m! Int)) (=> (and (<= 0 m!) (< m! %s) (not (= m! %s))) (not %s)))", r, j, at("m!")))
+	notFound := and(eq(r, "(- 1)"),
+		fmt.Sprintf("(forall ((m! Int) (n! Int)) (=> (and (<= 0 m!) (< m! n!) (< n! %s)) (not (and %s %s))))", b.S[1], at("m!"), at("n!")))
+	u.ctx.assert("lib:IndexFunc", implies(st.reach, or(found, notFound)))
+	// the counter afterwards: 2 when found, otherwise 0 or 1
+	nc := u.ctx.freshConst("cnt", SInt)
+	u.ctx.assert("lib:IndexFunc", implies(st.reach, ite(le("0", r), eq(nc, "2"), and(le("0", nc), le(nc, "1")))))
+	u.store(st, cnt.S[0], types.Typ[types.Int], "elem", Val{T: types.Typ[types.Int], S: []string{nc}})
+	return &Val{T: resT, S: []string{r}}
+}
+
+// matchCountingPredicate recognises func(r rune) bool { if r == C { *cnt++ }; return *cnt == K }.
+func matchCountingPredicate(fn *ssa.Function) (c int64, k int64, cell *ssa.FreeVar, ok bool) {
+	if len(fn.Params) != 1 || len(fn.FreeVars) != 1 {
+		return
+	}
+	cell = fn.FreeVars[0]
+	seenCmp, seenInc, seenRet := false, false, false
+	for _, b := range fn.Blocks {
+		for _, ins := range b.Instrs {
+			switch x := ins.(type) {
+			case *ssa.BinOp:
+				if x.Op.String() == "==" {
+					if x.X == fn.Params[0] {
+						if cc, isC := x.Y.(*ssa.Const); isC && cc.Value != nil {
+							c, seenCmp = cc.Int64(), true
+						}
+					} else if cc, isC := x.Y.(*ssa.Const); isC && cc.Value != nil {
+						if u, isLoad := x.X.(*ssa.UnOp); isLoad && u.X == cell {
+							k = cc.Int64()
+						}
+					}
+				} else if x.Op.String() == "+" {
+					if cc, isC := x.Y.(*ssa.Const); isC && cc.Value != nil && cc.Int64() == 1 {
+						if u, isLoad := x.X.(*ssa.UnOp); isLoad && u.X == cell {
+							seenInc = true
+						}
+					}
+				} else {
+					return 0, 0, nil, false
+				}
+			case *ssa.Store:
+				if x.Addr != cell {
+					return 0, 0, nil, false
+				}
+			case *ssa.Return:
+				seenRet = true
+			case *ssa.Call, *ssa.MapUpdate, *ssa.Alloc, *ssa.Go, *ssa.Defer:
+				return 0, 0, nil, false
+			}
+		}
+	}
+	ok = seenCmp && seenInc && seenRet && k > 0
+	return
 }
 
 func bytesContains(f *Frame, st *state, callee *ssa.Function, args []Val, ins ssa.Instruction, resT types.Type) *Val {
